@@ -13,13 +13,18 @@ from sa.index import load_sources
 
 def _apply(sources, v):
     if v["path"] == "*":
+        from selftest.transforms import TRANSFORMS
+
+        fn = TRANSFORMS[v.get("transform") or "unparse"]
         out = {}
         for p, txt in sources.items():
             try:
-                out[p] = ast.unparse(ast.parse(txt)) + "\n"
+                new = fn(txt)
             except Exception:
                 return None
-        return out
+            if new != txt:
+                out[p] = new
+        return out or None
     out = {}
     for path, old, new in [(v["path"], v["old"], v["new"])] + list(v.get("more") or []):
         src = out.get(path, sources.get(path))
